@@ -101,8 +101,6 @@ def configs(tier, seed):
     rot = seed % 3
     for i, nn in enumerate(NNPS):
         for cache in (False, True):
-            if quick and cache != bool((i + seed) % 2):
-                continue
             nm = 'sorted/%s/%s' % (nn, 'cache' if cache else 'nocache')
             a = ['--nnps', nn, '--sort-gids', '--no-openmp'] + (
                 ['--cache-nnps'] if cache else [])
@@ -124,8 +122,7 @@ def configs(tier, seed):
                 out.append((nm, a, t, 'bit', None))
     for i, nn in enumerate(NNPS):
         for cache in (False, True):
-            if quick and (cache != bool((i + seed + 1) % 2) or
-                          i % 3 != rot):
+            if quick and cache != bool((i + seed + 1) % 2):
                 continue
             nm = 'unsorted/%s/%s' % (nn, 'cache' if cache else 'nocache')
             a = ['--nnps', nn, '--no-openmp'] + (
